@@ -245,6 +245,50 @@ pub fn repeat_op(c: &Collector, prop: &str, engine: &str, base: &Base, op: &Op, 
     local.flush(c);
 }
 
+/// Histories WITHOUT state merging (a tree): redundant internal state (a cached flag mirroring
+/// a mode, a memoised table) that one path forgets to update is invisible to the state key, so
+/// merging would hide it. `ops`: the operations that maintain / consult the state in question
+/// (mode switches, DECSC / DECRC, reset, ...) plus a few operations owned by `prop`, which are
+/// the only ones judged.
+pub fn history_tree(c: &Collector, prop: &'static str, geom: (u32, u32), ops: Vec<Op>, depth: usize) {
+    history_tree_j(c, prop, geom, ops, depth, &|_| false)
+}
+
+/// like `history_tree`, with additional operations judged under `prop` (e.g. draw for C20)
+pub fn history_tree_j(c: &Collector, prop: &'static str, geom: (u32, u32), ops: Vec<Op>, depth: usize, also: &(dyn Fn(&Op) -> bool + Sync)) {
+    let tseed = Spec {
+        geoms: vec![geom],
+        fills: vec![Fill::F0],
+        cursors: CursorSel::Home,
+        regions: RegionSel::NoRegion,
+        modesets: vec![0],
+        renditions: vec![vec![]],
+        stacks: vec![0],
+        charsets: default_charsets(),
+        hidden_cursor: false,
+    };
+    let tseeds = gen_bases(c, &tseed);
+    let st = crate::explore::bfs_nd(
+        c,
+        &tseeds,
+        depth,
+        8_000_000,
+        |_| ops.clone(),
+        |c, t, local| {
+            if owner(t.op) == Some(prop) || also(t.op) {
+                local.count("tree_judged");
+                refine_all(c, prop, "E2.tree", t, local)
+            } else {
+                expand_ok(t)
+            }
+        },
+        |_| true,
+    );
+    c.bound(&format!("tree_levels_{}x{}", geom.0, geom.1), json!(st.levels));
+    c.bound("tree_depth", json!(depth));
+    c.bound("tree_alphabet", json!(ops.iter().map(|o| o.short()).collect::<Vec<_>>()));
+}
+
 // =====================================================================  C05
 pub fn c05_ops(b: &Base) -> Vec<Op> {
     let (c, l) = (b.columns, b.lines);
@@ -510,6 +554,24 @@ pub fn c07(c: &Collector, g: &mut Guard) {
         local.count("large_geometry_transitions");
         refine_all(c, "C07", "E2.depth1.large", t, local);
     });
+    history_tree(
+        c,
+        "C07",
+        (3, 2),
+        vec![
+            Op::Sm(vec![5], true),
+            Op::Rm(vec![5], true),
+            Op::Sgr(vec![27]),
+            Op::Sgr(vec![44]),
+            Op::SaveCursor,
+            Op::RestoreCursor,
+            Op::Reset,
+            Op::El(Some(0)),
+            Op::Ech(Some(1)),
+            Op::Cup(Some(2), Some(2)),
+        ],
+        if c.thorough() { 6 } else { 5 },
+    );
     c.bound("geometries", json!(spec.geoms));
     c.bound("selectors", json!("{absent,0,1,2,3,4,5,9999}; ECH counts {absent,0,1..max+2,9999}"));
     g.need(c, "pre_pending_wrap");
@@ -669,6 +731,23 @@ pub fn c13(c: &Collector, g: &mut Guard) {
         );
         c.bound(&format!("bfs_levels_{}x{}", gc, gl), json!(st.levels));
     }
+    history_tree(
+        c,
+        "C13",
+        (3, 2),
+        vec![
+            Op::Sm(vec![5], true),
+            Op::Rm(vec![5], true),
+            Op::Draw("a".into()),
+            Op::SaveCursor,
+            Op::RestoreCursor,
+            Op::Reset,
+            Op::Ich(Some(1)),
+            Op::Dch(Some(1)),
+            Op::Cup(Some(1), Some(2)),
+        ],
+        if c.thorough() { 7 } else { 6 },
+    );
     c.bound("geometries", json!(spec.geoms));
     c.bound("bfs_depth", json!(depth));
     g.need(c, "pre_pending_wrap");
@@ -811,6 +890,24 @@ pub fn c06(c: &Collector, g: &mut Guard) {
         );
         c.bound(&format!("bfs_levels_{}x{}", gc, gl), json!(st.levels));
     }
+    history_tree(
+        c,
+        "C06",
+        (2, 3),
+        vec![
+            Op::Sm(vec![20], false),
+            Op::Rm(vec![20], false),
+            Op::SetMargins(Some(1), Some(2)),
+            Op::SetMargins(None, None),
+            Op::SaveCursor,
+            Op::RestoreCursor,
+            Op::Reset,
+            Op::Cup(Some(3), Some(2)),
+            Op::Linefeed,
+            Op::Draw("k".into()),
+        ],
+        if c.thorough() { 6 } else { 5 },
+    );
     c.bound("geometries", json!(gs));
     c.bound("bfs_depth", json!(depth));
     g.need(c, "model_scrolled");
@@ -947,6 +1044,23 @@ pub fn c04(c: &Collector, g: &mut Guard) {
         );
         c.bound(&format!("bfs_levels_{}x{}", gc, gl), json!(st.levels));
     }
+    history_tree(
+        c,
+        "C04",
+        (3, 2),
+        vec![
+            Op::Sm(vec![4], false),
+            Op::Rm(vec![4], false),
+            Op::Rm(vec![7], true),
+            Op::Sm(vec![7], true),
+            Op::SaveCursor,
+            Op::RestoreCursor,
+            Op::Reset,
+            Op::Cup(Some(1), Some(3)),
+            Op::Draw("ab".into()),
+        ],
+        if c.thorough() { 7 } else { 6 },
+    );
     c.bound("geometries", json!(spec.geoms));
     c.bound("bfs_depth", json!(depth));
     c.bound("texts", json!(c04_texts(4).iter().map(|t| crate::ops::esc(t)).collect::<Vec<_>>()));
